@@ -1111,7 +1111,7 @@ class BroadcastJoinLayerBase(Spec):
     broadcast side (pre-split by hash unless how='inner') and concatenates the results; the broadcast frame's piece
     is the LEFT merge argument exactly when the broadcast side is the left input."""
 
-    file, qualname, props = "dask_expr/_merge.py", "BroadcastJoin._layer", ["C09", "C10", "C11", "C02"]
+    file, qualname, props = "dask_expr/_merge.py", "BroadcastJoin._layer", ["C09", "C10", "C11", "C02", "C01"]
     how, side = "inner", "left"
 
     acc_closed = {
